@@ -980,6 +980,9 @@ func (c *specCtx) binary(x *ast.BinaryExpr) TV {
 		case token.QUO:
 			return mk("goquo", SInt)
 		case token.REM:
+			if t, ok := linearRem(a, b); ok {
+				return TV{t, typ}
+			}
 			return mk("gorem", SInt)
 		case token.LSS:
 			return mk("<", SBool)
@@ -1458,4 +1461,22 @@ func (c *specCtx) resolveType(e ast.Expr) types.Type {
 	}
 	engErr("cannot resolve type %s", c.fe.eng.exprString(e))
 	return nil
+}
+
+// linearRem: a % b with a numeral divisor (or an ite of numerals) written with SMT mod, which is linear.
+func linearRem(a, b Term) (Term, bool) {
+	if n, ok := intLiteral(b.S); ok && n > 0 {
+		return Term{fmt.Sprintf("(ite (>= %s 0) (mod %s %d) (- (mod (- %s) %d)))", a.S, a.S, n, a.S, n), SInt}, true
+	}
+	if strings.HasPrefix(b.S, "(ite ") {
+		parts := splitTop(b.S[1 : len(b.S)-1])
+		if len(parts) == 4 {
+			t1, ok1 := linearRem(a, Term{parts[2], SInt})
+			t2, ok2 := linearRem(a, Term{parts[3], SInt})
+			if ok1 && ok2 {
+				return Term{"(ite " + parts[1] + " " + t1.S + " " + t2.S + ")", SInt}, true
+			}
+		}
+	}
+	return Term{}, false
 }
